@@ -79,10 +79,14 @@ B_KINDS = ["take", "give", "seltake", "selgive", "sleep", "read", "procwait", "d
 ABANDON = ["cancel", "deadline", "select-other", "timeout-arg"]
 
 
-def make_scenario(rng, akind, bkind, method, exe):
+def make_scenario(rng, akind, bkind, method, exe, flavour="chan"):
     A = kind_spec(akind, "a", exe)
     B = kind_spec(bkind, "b", exe)
-    lines = [PRELUDE, A["setup"], B["setup"], '(def other (ev/chan)) (put NAMES other "other")']
+    if flavour == "tchan":
+        # the same single-thread scenario over thread channels: every hand-off goes through the thread-channel code path
+        A = dict(A, setup=A["setup"].replace("(ev/chan)", "(ev/thread-chan)"))
+        B = dict(B, setup=B["setup"].replace("(ev/chan)", "(ev/thread-chan)"))
+    lines = [PRELUDE, A["setup"], B["setup"], '(def other (%s)) (put NAMES other "other")' % ("ev/thread-chan" if flavour == "tchan" else "ev/chan")]
     # how A is abandoned
     if method == "cancel":
         a_form = "(try %s ([e] :abandoned))" % A["wait"]
@@ -127,7 +131,7 @@ def make_scenario(rng, akind, bkind, method, exe):
 EV_RE = re.compile(r"^E (\d+) ([CRM]) (\S+) (\S+) ?(.*)$")
 
 
-def judge(ctx, akind, bkind, method, A, B, err_text, files):
+def judge(ctx, akind, bkind, method, A, B, err_text, files, tag=""):
     evs = []
     for line in err_text.splitlines():
         m = EV_RE.match(line)
@@ -144,7 +148,7 @@ def judge(ctx, akind, bkind, method, A, B, err_text, files):
     retB = idx(lambda e: e[1] == "R" and e[2] == "0" and e[3] == "B")
     fire = idx(lambda e: e[1] == "M" and e[3] == "fire-A")
     compl = idx(lambda e: e[1] == "M" and e[3] == "complete-B")
-    sig = "%s->%s:%s" % (akind, bkind, method)
+    sig = "%s%s->%s:%s" % (tag, akind, bkind, method)
     if callA is None or retA is None or callB is None or fire is None:
         return "inconclusive"
     if not (retA < callB < fire):
@@ -250,12 +254,21 @@ def run(ctx):
         for a in A_KINDS:
             for b in B_KINDS:
                 for m in ABANDON:
-                    cases.append((a, b, m, rep))
+                    cases.append((a, b, m, rep, "chan"))
+    # the channel kinds again over thread channels used within one thread
+    CH = ("take", "give", "seltake", "selgive", "deadline", "take-closefire", "seltake-closefire", "give-closefire")
+    for rep in range(reps):
+        for a in A_KINDS:
+            for b in B_KINDS:
+                if a in CH or b in CH:
+                    for m in ABANDON:
+                        cases.append((a, b, m, rep, "tchan"))
 
     def one(i):
-        a, b, m, rep = cases[i]
+        a, b, m, rep, flavour = cases[i]
+        tag = "tchan:" if flavour == "tchan" else ""
         rng = random.Random(ctx.sub_seed("s", i))
-        sc = make_scenario(rng, a, b, m, exe)
+        sc = make_scenario(rng, a, b, m, exe, flavour)
         if sc is None:
             return
         script, A, B = sc
@@ -268,15 +281,15 @@ def run(ctx):
         ctx.evals()
         if not ctx.check_result(res, files, where="scenario"):
             return
-        verdict = judge(ctx, a, b, m, A, B, res.err.decode(errors="replace"), files)
+        verdict = judge(ctx, a, b, m, A, B, res.err.decode(errors="replace"), files, tag)
         ctx.count("verdict_" + verdict)
         if verdict == "inconclusive":
             # re-run once alone-ish before giving up on this combination
             res2 = core.run([exe, path], timeout=30, cpu=10)
             core.discard(res2)
-            v2 = judge(ctx, a, b, m, A, B, res2.err.decode(errors="replace"), dict(files, **{"events.txt": res2.err[-6000:]}))
+            v2 = judge(ctx, a, b, m, A, B, res2.err.decode(errors="replace"), dict(files, **{"events.txt": res2.err[-6000:]}), tag)
             ctx.count("rerun_" + v2)
-        ctx.sample({"A": a, "B": b, "abandon": m, "verdict": verdict}, cap=6)
+        ctx.sample({"A": a, "B": b, "abandon": m, "channels": flavour, "verdict": verdict}, cap=6)
 
     core.pmap(one, range(len(cases)), jobs=8)
 
